@@ -125,6 +125,52 @@ pub const TREE_ALIAS: Node<Dev> = Root![
     Leaf { name: b"*ERR", default: false, handler: &ErrCommand }
 ];
 
+/// a device that implements ONLY IEEE 488.2 (no SCPI layer): `IEEE4882::stb()` is the trait's DEFAULT method, the error
+/// hook records the class bit of the error in ESR, `*CLS` clears ESR, `*OPC` sets the operation-complete bit
+pub struct Dev488 { pub esr: u8, pub ese: u8, pub sre: u8 }
+impl Device for Dev488 {
+    fn handle_error(&mut self, err: Error) { self.esr |= err.esr_mask(); }
+}
+impl IEEE4882 for Dev488 {
+    fn sre(&self) -> u8 { self.sre }
+    fn set_sre(&mut self, value: u8) { self.sre = value }
+    fn esr(&self) -> u8 { self.esr }
+    fn set_esr(&mut self, value: u8) { self.esr = value }
+    fn ese(&self) -> u8 { self.ese }
+    fn set_ese(&mut self, value: u8) { self.ese = value }
+    fn tst(&mut self) -> Result<()> { Ok(()) }
+    fn rst(&mut self) -> Result<()> { Ok(()) }
+    fn cls(&mut self) -> Result<()> { self.esr = 0; Ok(()) }
+    fn opc(&mut self) -> Result<()> { self.esr |= 1; Ok(()) }
+}
+pub const TREE_488: Node<Dev488> = Root![
+    ieee488_cls!(), ieee488_ese!(), ieee488_esr!(), ieee488_idn!(b"Example Inc", b"T800-101", b"0", b"0"), ieee488_opc!(), ieee488_rst!(),
+    ieee488_sre!(), ieee488_stb!(), ieee488_tst!(), ieee488_wai!()
+];
+/// the status byte a 488.2-only device must report (488.2 11.2: ESB = some enabled ESR bit, MAV from the interface,
+/// MSS = some reported bit enabled by SRE; no queue, no SCPI summaries): an independent reading of the property
+fn stb488_expected(d: &Dev488, mav: bool) -> u8 {
+    let mut stb = 0u8;
+    if d.esr & d.ese != 0 { stb |= 32 }
+    if mav { stb |= 16 }
+    if stb & d.sre & !64 != 0 { stb |= 64 }
+    stb
+}
+/// probe `*STB?`, `*ESE?`, `*SRE?` of the 488.2-only device (all three are pure) under both MAV values
+fn probe488(d: &mut Dev488) -> Option<String> {
+    for mav in [false, true] {
+        let mut ctx = Context::new(); ctx.mav = mav;
+        let (esr0, ese0, sre0) = (d.esr, d.ese, d.sre);
+        let mut resp: Vec<u8> = Vec::new();
+        let r = TREE_488.run(b"*STB?;*ESE?;*SRE?", d, &mut ctx, &mut resp);
+        let exp = format!("{};{};{}\n", stb488_expected(d, mav), ese0, sre0);
+        if r.is_err() || resp != exp.as_bytes() || (d.esr, d.ese, d.sre) != (esr0, ese0, sre0) {
+            return Some(format!("mav={} got={} exp={}", mav as u8, hex(&resp), hex(exp.as_bytes())));
+        }
+    }
+    None
+}
+
 fn regs_only(d: &Dev) -> String {
     format!("esr={};ese={};sre={};o={};u={}", d.esr, d.ese, d.sre, reg(&d.operation), reg(&d.questionable))
 }
@@ -155,6 +201,10 @@ fn run_mode(args: &[&str], count_allocs: bool) -> String {
     // status registers must not depend on the capacity of the error queue
     let mut da = Dev::new(); let mut ctxa = Context::new();
     let mut db = Dev::new(); db.bounded = Some(arrayvec::ArrayVec::new()); let mut ctxb = Context::new();
+    // (c) a device implementing only IEEE 488.2, whose `*STB?` goes through the DEFAULT `IEEE4882::stb()`: it gets every
+    // message too (SCPI headers simply fail on it with -113 and set the command-error bit) and after each one its
+    // status byte, ESE and SRE are probed against the 488.2 reading computed from its own registers
+    let mut d488 = Dev488 { esr: 0, ese: 0, sre: 0 }; let mut ctx488 = Context::new();
     let shadows = !count_allocs;
     let mut out = Vec::new();
     for step in args.get(0).unwrap_or(&"").split('|') {
@@ -179,6 +229,10 @@ fn run_mode(args: &[&str], count_allocs: bool) -> String {
                     let mut rb: Vec<u8> = Vec::new();
                     let _ = TREE.run(&msg, &mut db, &mut ctxb, &mut rb);
                     if regs_only(&db) != regs_only(&d) { shadow_note.push_str(&format!(" BOUNDED-QUEUE-DEVICE-DIFFERS[{}]", regs_only(&db))); }
+                    ctx488.mav = ctx.mav;
+                    let mut r4: Vec<u8> = Vec::new();
+                    let _ = TREE_488.run(&msg, &mut d488, &mut ctx488, &mut r4);
+                    if let Some(why) = probe488(&mut d488) { shadow_note.push_str(&format!(" IEEE488-ONLY-DEVICE-DIFFERS[{}]", why)); }
                 }
                 if count_allocs {
                     out.push(format!("a={}", crate::k_tree::allocs() - before));
